@@ -18,7 +18,10 @@
      GraphMachine.__setstate__  : __dict__.update(state); model_graphs = {};
                                   for model in models: _get_graph(model)      (regenerated)
      PicklableLock.__getstate__/__setstate__ : state discarded, re-created UNLOCKED
-     (nothing for _transition_queue_dict)
+     AsyncMachine.__getstate__  : if queued == 'model': state['_transition_queue_dict'] =
+                                    [(mod, queues[id(mod)]) for mod in models]          (fix 9fbcaa5)
+     AsyncMachine.__setstate__  : ... = {id(mod): queue for mod, queue in that list}
+     (AsyncGraphMachine / HierarchicalAsyncGraphMachine run AsyncMachine's and GraphMachine's protocols)
 
    Which pair of hooks a class uses is decided by the MRO; GraphMachine's pair does not call
    super(), so LockedGraphMachine(GraphMachine, LockedMachine) and LockedHierarchicalGraphMachine
@@ -81,12 +84,19 @@ Definition lookup_list {A} (t : list (ident * list A)) (i : ident) : list A :=
 (* ----------------------------------------------------------------- classes *)
 (* the key of factory._CLASS_MAP: (graph, nested, locked, asyncio) *)
 Record cls : Type := mkCls { k_graph : bool; k_nested : bool; k_locked : bool; k_async : bool }.
-Inductive hooks : Type := HDefault | HLocked | HGraph | HLockedGraph.
+Inductive hooks : Type := HDefault | HLocked | HGraph | HLockedGraph | HAsync | HAsyncGraph.
 Definition hooks_code (h : hooks) : nat :=
-  match h with HDefault => 0 | HLocked => 1 | HGraph => 2 | HLockedGraph => 3 end.
+  match h with HDefault => 0 | HLocked => 1 | HGraph => 2 | HLockedGraph => 3 | HAsync => 4 | HAsyncGraph => 5 end.
 (* first class of the MRO that defines __getstate__/__setstate__ *)
 Definition effective_hooks (k : cls) : hooks :=
+  if k_async k then (if k_graph k then HAsyncGraph else HAsync)
+  else if k_graph k then (if k_locked k then HLockedGraph else HGraph) else if k_locked k then HLocked else HDefault.
+(* what the hooks in effect do to the context table and the graph table (the async hooks treat them like the
+   default / GraphMachine's; the per-model queue table is handled apart, by every async class) *)
+Definition table_hooks (k : cls) : hooks :=
   if k_graph k then (if k_locked k then HLockedGraph else HGraph) else if k_locked k then HLocked else HDefault.
+Definition base_hooks (h : hooks) : hooks :=
+  match h with HAsync => HDefault | HAsyncGraph => HGraph | x => x end.
 
 (* context objects: PicklableLock (lo_picklable: state discarded by pickling), IdentManager
    and user contexts (pickled like any object) *)
@@ -165,7 +175,8 @@ Section Pickle.
     p_cmap : list (ident * list ident);             (* INTEGER keys, reference values *)
     p_store : option (list (ident * list ident));   (* list of (model OBJECT, contexts) pairs: references *)
     p_graphs : list (ident * G);
-    p_qkeys : list ident                            (* INTEGER keys *)
+    p_qkeys : list ident;                           (* INTEGER keys *)
+    p_qstore : option (list ident)                  (* (model OBJECT, queue) pairs of the async classes: references *)
   }.
 
   (* never raises (the option is kept for the callers: None would be an exception in __getstate__);
@@ -173,19 +184,23 @@ Section Pickle.
   Definition locked_store (m : machine) : list (ident * list ident) :=
     map (fun i => (i, lookup_list (m_cmap m) i)) (m_models m).
   Definition getstate (w : world) (m : machine) : option pstate :=
-    match effective_hooks (m_cls m) with
+    let qm := k_async (m_cls m) && m_qmodel m in
+    let qk := if qm then [] else m_qkeys m in
+    let qs := if qm then Some (m_models m) else None in
+    match table_hooks (m_cls m) with
     | HDefault =>
         Some (mkP (m_cls m) (m_cfg m) (m_qmodel m) (m_models m) (m_mctx m) (m_cmap m) None
-                  (m_graphs m) (m_qkeys m))
+                  (m_graphs m) qk qs)
     | HGraph =>
         Some (mkP (m_cls m) (m_cfg m) (m_qmodel m) (m_models m) (m_mctx m) (m_cmap m) None
-                  [] (m_qkeys m))
+                  [] qk qs)
     | HLocked =>
         Some (mkP (m_cls m) (m_cfg m) (m_qmodel m) (m_models m) (m_mctx m) []
-                  (Some (locked_store m)) (m_graphs m) (m_qkeys m))
+                  (Some (locked_store m)) (m_graphs m) qk qs)
     | HLockedGraph =>
         Some (mkP (m_cls m) (m_cfg m) (m_qmodel m) (m_models m) (m_mctx m) []
-                  (Some (locked_store m)) [] (m_qkeys m))
+                  (Some (locked_store m)) [] qk qs)
+    | HAsync | HAsyncGraph => None      (* not values of table_hooks *)
     end.
 
   (* ------------------------------------------------------------- the assumption about pickle *)
@@ -205,7 +220,7 @@ Section Pickle.
          (map rm (p_models p)) (map rl (p_mctx p))
          (ren_tab (fun i => i) rl (p_cmap p))                     (* integer keys: verbatim *)
          (option_map (ren_tab rm rl) (p_store p))                 (* object keys: redirected *)
-         (p_graphs p) (p_qkeys p)).
+         (p_graphs p) (p_qkeys p) (option_map (map rm) (p_qstore p))).
 
   (* ------------------------------------------------------------- __setstate__ *)
   (* [seen i]: the state attribute of model i as the machine's __setstate__ sees it while the
@@ -213,24 +228,27 @@ Section Pickle.
      complete by then; when it enters through a model (pickle.dumps(model): model -> trigger
      partial -> machine -> models) that model is still an empty shell (no attributes). *)
   Definition setstate_gen (seen : ident -> option S) (p : pstate) : machine :=
-    match effective_hooks (p_cls p) with
+    let qk := match p_qstore p with Some l => l | None => p_qkeys p end in
+    match table_hooks (p_cls p) with
     | HDefault =>
-        mkM (p_cls p) (p_cfg p) (p_qmodel p) (p_models p) (p_mctx p) (p_cmap p) (p_graphs p) (p_qkeys p)
+        mkM (p_cls p) (p_cfg p) (p_qmodel p) (p_models p) (p_mctx p) (p_cmap p) (p_graphs p) qk
     | HLocked =>
         let store := match p_store p with Some s => s | None => [] end in
         mkM (p_cls p) (p_cfg p) (p_qmodel p) (p_models p) (p_mctx p)
             (build fst snd store)                       (* for model, contexts in store: map[id(model)] = contexts *)
-            (p_graphs p) (p_qkeys p)
+            (p_graphs p) qk
     | HLockedGraph =>
         let store := match p_store p with Some s => s | None => [] end in
         mkM (p_cls p) (p_cfg p) (p_qmodel p) (p_models p) (p_mctx p)
             (build fst snd store)
             (build (fun i => i) (fun i => render (p_cfg p) (seen i)) (p_models p))
-            (p_qkeys p)
+            qk
     | HGraph =>
         mkM (p_cls p) (p_cfg p) (p_qmodel p) (p_models p) (p_mctx p) (p_cmap p)
             (build (fun i => i) (fun i => render (p_cfg p) (seen i)) (p_models p))
-            (p_qkeys p)
+            qk
+    | HAsync | HAsyncGraph =>
+        mkM (p_cls p) (p_cfg p) (p_qmodel p) (p_models p) (p_mctx p) (p_cmap p) (p_graphs p) qk
     end.
   Definition setstate (w : world) (p : pstate) : machine := setstate_gen (state_of w) p.
 
@@ -302,9 +320,11 @@ Section Pickle.
     forallb (fun i => negb (nmem (rm i) (keys (w_models w))) && negb (nmem (rm i) (m_models m))) (m_models m) &&
     forallb (fun l => negb (nmem (rl l) (keys (w_locks w))) && negb (nmem (rl l) (all_locks m))) (all_locks m).
 
-  (* the classes whose hooks repair every table they own; the only exception left is the per-model
-     queue table of the async classes (known finding KF-C15-3) *)
-  Definition guard (m : machine) : bool := negb (k_async (m_cls m) && m_qmodel m).
+  (* every class repairs every table it owns now (the async queue table since fix 9fbcaa5).  What is left of the
+     guard is an invariant of the original: with queued='model' every registered model has its queue
+     (add_model creates it, remove_model deletes it: [guard_reachable]) *)
+  Definition guard (m : machine) : bool :=
+    negb (k_async (m_cls m) && m_qmodel m) || forallb (fun i => nmem i (m_qkeys m)) (m_models m).
 
   (* ------------------------------------------------------------- runs over the resolved machine *)
   Variables E O : Type.
@@ -399,6 +419,7 @@ Arguments p_cmap {_ _}.
 Arguments p_store {_ _}.
 Arguments p_graphs {_ _}.
 Arguments p_qkeys {_ _}.
+Arguments p_qstore {_ _}.
 Arguments reach_locks {_ _}.
 Arguments locked_store {_ _}.
 Arguments run_view {_ _ _ _ _}.
